@@ -95,7 +95,7 @@ def gen(rng, tier):
     def beh():
         # what the application's connect handler does
         return rng.choice(['accept'] * 6 + ['false', 'cre', 'kick', 'enter',
-                                            'emit', 'pause_sever'])
+                                            'emit', 'pause_sever', 'boom'])
     for p in range(npeers):
         for ns in NSS:
             if rng.random() < 0.8:
@@ -302,6 +302,9 @@ def _run_twin(case, cfg, instrumented, w):
                         ('ret', None)]
             if b == 'pause_sever':
                 return [('pause', 0.01), ('ret', None)]
+            if b == 'boom':
+                # the application's connect handler fails (not a refusal)
+                return [('raise', KeyError('boom-injected'))]
         return [('ret', None)]
     coroutine = bool(cfg.get('coroutine')) and w.mode == 'async'
     for ns in NSS:
@@ -409,6 +412,12 @@ def _run_twin(case, cfg, instrumented, w):
                 continue
             sid = sc.connect(p, ns)
             pending_beh.pop(ns, None)
+            if b == 'boom':
+                # ... and that client goes away again
+                sc.peers[p].sever(0.0)
+                w.settle()
+                sc.drop_transport(p)
+                continue
             if sid and sid not in sid_names:
                 sid_names[sid] = 'SID%d' % len(sid_names)
             if sid and b == 'kick':
@@ -551,6 +560,8 @@ def _run_twin(case, cfg, instrumented, w):
     traces['api'] = [(trepr(e['op']), e.get('exc'), trepr(norm(
         e.get('result')))) for e in rec.events if e['kind'] == 'op_end']
     for e in rec.errors:
+        if 'boom-injected' in (e.get('exc') or ''):
+            continue
         v.add('error_logged', '%s: %s %s in %s'
               % ('instrumented' if instrumented else 'plain', e['msg'],
                  e.get('exc'), e.get('site')),
